@@ -3,7 +3,7 @@
 // Engine E1: the real Listen (API -> listen -> ut0311.Listen: receive loop, dispatcher goroutine,
 // shutdown goroutine, unbuffered event pipe) runs on the simulated network while datagrams of an
 // enumerated class sequence arrive and the stop signal is injected after every prefix. Two layers:
-// (a) content — every sequence over the full 14-class alphabet, preemption bound 0 (all forced
+// (a) content — every sequence over the full 16-class alphabet, preemption bound 0 (all forced
 // switch orders); (b) scheduling — every sequence over {valid, v6.62, malformed} under ALL
 // interleavings of receive loop, dispatcher, shutdown goroutine, stopper and caller within the
 // preemption bound; (c) start/stop cycles on the same listen address.
@@ -33,7 +33,7 @@ const (
 	lport  = 60001
 )
 
-var classes = []string{"valid", "valid-v6.62", "valid-index-0", "len63", "len65", "serial-0", "wrong-function", "protocol-00", "bad-boolean", "bad-bcd-timestamp", "bad-bcd-sysdate", "bad-bcd-systime", "len0", "len1100"}
+var classes = []string{"valid", "valid-v6.62", "valid-index-0", "len63", "len65", "serial-0", "wrong-function", "protocol-00", "bad-boolean", "bad-bcd-timestamp", "bad-bcd-sysdate", "bad-bcd-systime", "len0", "len1100", "len6", "function-ff"}
 
 var statusOp = spec.OpByName("GetStatus")
 
@@ -71,6 +71,10 @@ func datagram(class string, seq int) []byte {
 		d = d[:63]
 	case "len65":
 		d = append(d, 0)
+	case "len6":
+		d = d[:6]
+	case "function-ff":
+		d[1] = 0xff
 	case "len0":
 		d = []byte{}
 	case "len1100": // a well-formed event followed by 1036 more bytes
@@ -140,7 +144,8 @@ func scenario(name string, seq []string, stopAfter int, senders int, bound int, 
 	body := func() {
 		runs = nil
 		vs.Net().Env = &farm.Farm{}
-		u := uhppote.NewUHPPOTE(types.BindAddr{}, types.BroadcastAddr{}, types.ListenAddrFrom(netip.MustParseAddr("0.0.0.0"), lport), T, nil, false)
+		// (two senders = the variant whose client is built with debug = true as well)
+		u := uhppote.NewUHPPOTE(types.BindAddr{}, types.BroadcastAddr{}, types.ListenAddrFrom(netip.MustParseAddr("0.0.0.0"), lport), T, nil, senders == 2)
 		for c := 0; c < cycles; c++ {
 			r := &run{l: &listener{choose: bound == 0}}
 			runs = append(runs, r)
@@ -391,7 +396,7 @@ func main() {
 	if r.Worker == "" && r.Replay == "" {
 		e1.Conformance(r)
 	}
-	r.Rule(fmt.Sprintf("(a) every datagram-class sequence of length <= %d over %d classes x stop signal after every prefix x 1-2 senders x OnError returning true / false (an environment choice per error), preemption bound 0; (b) every sequence of length <= %d over {valid, v6.62, malformed} x stop after every prefix under ALL interleavings (no preemption bound), and as a burst (datagrams and stop signal in one instant) under ALL interleavings for length 1 (thorough: length <= 2) and with <= %d preemptions beyond; (c) two consecutive Listen runs on the same address under all interleavings; (d) a burst of 300 (thorough 1100) valid events with at most one non-default choice, and 12-event sequences (burst and spaced, valid and mixed) with at most 2 non-default scheduling choices of any kind. distinct = distinct (datagrams read, events, errors) labels", contentLen, len(classes), schedLen, schedBound))
+	r.Rule(fmt.Sprintf("(a) every datagram-class sequence of length <= %d over %d classes x stop signal after every prefix x 1-2 senders (the two-sender variants use a client built with debug = true) x OnError returning true / false (an environment choice per error), preemption bound 0; (b) every sequence of length <= %d over {valid, v6.62, malformed} x stop after every prefix under ALL interleavings (no preemption bound), and as a burst (datagrams and stop signal in one instant) under ALL interleavings for length 1 (thorough: length <= 2) and with <= %d preemptions beyond; (c) two consecutive Listen runs on the same address under all interleavings; (d) a burst of 300 (thorough 1100) valid events with at most one non-default choice, and 12-event sequences (burst and spaced, valid and mixed) with at most 2 non-default scheduling choices of any kind. distinct = distinct (datagrams read, events, errors) labels", contentLen, len(classes), schedLen, schedBound))
 	r.Assume("a datagram counts as received when a read on the listen socket returned it (datagrams still queued when the socket is closed were never received)")
 	r.Assume("calendar-invalid (but BCD) timestamps are outside the alphabet: the library documents decoding them as 'no value'")
 	r.Finish()
